@@ -285,9 +285,9 @@ def kernelStep (op : List String) (impl : Option (List String)) : Option (String
     match f3? a b c with
     | some (p, al, be) =>
       some (kModel (DistKernels.qBeta (kLg es) (kIb es) p al be) rest, judge fun o =>
-        [("qBeta_exc_iff", !(qBetaRaises p al be) || kIsExc o),
+        [("qBeta_raises_iff", !(qBetaRaises p al be) || kIsExc o),
          ("qBeta_ends", qBetaRaises p al be || !(p == 0 || p == 1) || kValIs o p),
-         ("qBeta_exc_iff", qBetaRaises p al be || !(al > 0 && be > 0) || !kIsExc o)])
+         ("qBeta_raises_iff", qBetaRaises p al be || !(al > 0 && be > 0) || !kIsExc o)])
     | none => some ("bad-op", "-")
   | ["refl.ibeta", a, b, c] =>
     match f3? a b c with
